@@ -33,6 +33,7 @@ from rzilcompiler.Transformer.Pures.Cast import Cast
 from rzilcompiler.Transformer.Pures.CompareOp import CompareOp, CompareOpType
 from rzilcompiler.Transformer.Pures.LetVar import LetVar
 from rzilcompiler.Transformer.Pures.LocalVar import LocalVar
+from rzilcompiler.Transformer.Pures.GlobalVar import GlobalVar
 from rzilcompiler.Transformer.Pures.MemLoad import MemAccessType, MemLoad
 from rzilcompiler.Transformer.Pures.Number import Number
 from rzilcompiler.Transformer.Pures.Pure import Pure, PureType
@@ -1227,11 +1228,17 @@ class RZILTransformer(Transformer):
         if not isinstance(cond, LetVar):
             return None
         self.il_ops_holder.rm_op_by_name(cond.get_name())
-        if cond.get_val():
-            self.il_ops_holder.rm_op_by_name(items[2].get_name())
-            return items[1]
-        self.il_ops_holder.rm_op_by_name(items[1].get_name())
-        return items[2]
+        live, dead = (items[1], items[2]) if cond.get_val() else (items[2], items[1])
+        # Registers, immediates and variables are shared by name.
+        # Don't drop the declaration if other ops still need it.
+        shared = isinstance(dead, (LocalVar, GlobalVar)) and not (
+            dead.value_type.group & VTGroup.HYBRID_LVAR
+        )
+        if not shared or (
+            dead is not live and not self.il_ops_holder.is_referenced(dead)
+        ):
+            self.il_ops_holder.rm_op_by_name(dead.get_name())
+        return live
 
     def cast_operands(self, immutable_a: bool, **ops) -> tuple[Pure, Pure]:
         """Casts two operands to a common type according to C11 standard.
